@@ -38,3 +38,18 @@ def guardedQuery {α : Type} (creation now : Nat) (compute : Unit → α) : Answ
   if creation != now then .stale else .answer (compute ())
 
 end DM.Gen
+
+namespace DM.Hull
+
+/-- `find_nearest_visible_facet` (convex_hull.rs): among the visible facets, the one with the least
+key (squared distance from the query to the facet centroid), the first such one in hull order;
+`none` when nothing is visible.  Facets are (index, key) pairs, keys in any linearly ordered carrier
+(here `Int`: the exact integer key `|D·q − Σ v|²`). -/
+def nearest : List (Nat × Int) → Option (Nat × Int)
+  | [] => none
+  | f :: rest =>
+    match nearest rest with
+    | none => some f
+    | some g => if f.2 ≤ g.2 then some f else some g
+
+end DM.Hull
